@@ -43,6 +43,30 @@ void x_verif_check(uint32_t c, uint8_t* what){ if (!c) ll_failed = 1; }
 void x_verif_fail(uint8_t* what){ ll_failed = 1; }
 #endif
 uint64_t x_verif_param(uint32_t i){ return LL_PARAMS[i]; }
+#ifdef __CPROVER__
+#ifndef LL_BIGW
+#define LL_BIGW 1400
+#endif
+typedef unsigned __CPROVER_bitvector[LL_BIGW] ll_big;
+/* exact oracle: is `bits` (sign cleared) the nearest double, ties to even, of man * 10^exp10 ?  Normal results only. */
+uint32_t x_verif_oracle_dec2double(uint64_t man, uint32_t exp10u, uint64_t bits){
+  int E = (int)exp10u;
+  uint64_t bexp = (bits >> 52) & 0x7FF;
+  if (bexp == 0 || bexp == 0x7FF) return 0;
+  uint64_t m = (bits & 0xFFFFFFFFFFFFFULL) | (1ULL << 52); int e2 = (int)bexp - 1075;
+  ll_big lhs = man, rhs = m, half = 1;
+  for (int i = 0; i < 350; i++) { if (i < (E > 0 ? E : 0)) lhs = lhs * 10; }
+  for (int i = 0; i < 350; i++) { if (i < (E < 0 ? -E : 0)) { rhs = rhs * 10; half = half * 10; } }
+  ll_big L = lhs * 2, R = rhs * 2, H = half;
+  if (e2 >= 0) { R = R << e2; H = H << e2; } else { L = L << (-e2); }
+  ll_big diff = L > R ? L - R : R - L;
+  if (diff > H) return 0;
+  if (diff == H && (m & 1) != 0) return 0;
+  return 1;
+}
+#else
+uint32_t x_verif_oracle_dec2double(uint64_t man, uint32_t exp10u, uint64_t bits){ return 1; }  /* translator validation compares the kernel only */
+#endif
 uint64_t x_verif_concrete(uint64_t v){ return v; }
 uint64_t x_verif_live_heap(void){ return 0; }
 void x_verif_note(uint8_t* w, uint64_t v){}
@@ -85,6 +109,7 @@ uint64_t verif_concrete(uint64_t v){ return v; }
 int verif_is_replay(void){ return 0; }
 void* verif_alloc_page_end(size_t n, size_t, size_t){ return malloc(n); }
 void verif_map_slack(const void*, size_t){}
+int verif_oracle_dec2double(uint64_t, int, uint64_t){ return 1; }
 void verif_check_independent(uint64_t, const char*){}
 void verif_check_independent_mem(const void*, size_t, const char*){}
 }
@@ -151,6 +176,7 @@ def main():
         base = ['cbmc', glue, '-I', wd, '--unwind', str(unwind), '--unwinding-assertions', '--undefined-shift-check', '--drop-unused-functions',
                 '--no-malloc-may-fail', '--no-standard-checks', '--bounds-check', '--pointer-check', '--div-by-zero-check', '--slice-formula']
         base += x.get('cbmc_flags', [])
+        if x.get('bigw'): base += ['-DLL_BIGW=%d' % x['bigw']]
         mem = x.get('mem_gb', 24)
         tmo = x.get('cbmc_timeout', 900)
         # witness twin first (cheap): must FAIL
@@ -166,6 +192,23 @@ def main():
             wit = None
         res['extra']['witness_reached'] = wit
         res['extra']['witness_s'] = round(time.time() - tw, 1)
+        if x.get('witness_param') is not None:
+            # second vacuity twin: with param[witness_param]=1 the harness asserts the negation of its interesting case; must FAIL
+            wp = list(spec['params']); 
+            while len(wp) <= x['witness_param']: wp.append(0)
+            wp[x['witness_param']] = 1
+            glue2 = os.path.join(wd, 'glue_w.c')
+            open(glue2, 'w').write(GLUE % dict(gen=gen, params=''.join('%dull, ' % (p & ((1 << 64) - 1)) for p in wp), entry='f_' + entry))
+            try:
+                r = sh(['cbmc', glue2] + base[2:], timeout=tmo, preexec_fn=limit_mem(mem))
+                res['extra']['witness_case_reached'] = ('VERIFICATION FAILED' in r.stdout and 'verif_check' in r.stdout)
+            except subprocess.TimeoutExpired:
+                res['extra']['witness_case_reached'] = None
+            if res['extra']['witness_case_reached'] is not True and x.get('witness_required', True):
+                res['status'] = 'inconclusive'; res['error'] = 'vacuous window: the kernel accepts no value of this window (or the twin timed out)'
+                if x.get('witness_optional'): res['status'] = 'pass'; res['extra']['note'] = 'kernel declines every value of this window'
+                else:
+                    print(json.dumps(res)); return
         tq = time.time()
         try:
             r = sh(base + ['--trace'], timeout=tmo, preexec_fn=limit_mem(mem))
